@@ -34,17 +34,17 @@ var rangeOps = []string{
 // check, with the invariant that makes it fit. Keyed by function; the value
 // lists the writers that are accepted after the last check.
 var rangeExceptions = map[string]map[string]string{
-	"(*Context).Reduce":     {"(*Decimal).Reduce": "stripping trailing zeros after rounding keeps the adjusted exponent and only removes digits"},
-	"(*Context).QuoInteger": {"(*BigInt).Quo": "integer quotient: exponent is the constant 0 and NumDigits <= Precision is tested explicitly (else NaN)", "store Exponent": "constant 0"},
-	"(*Context).Quantize":   {"(*Context).quantize": "followed by the NumDigits/MaxExponent guards and a Round"},
-	"(*Context).quantize":   {"*": "quantize's contract is the requested exponent; range is enforced by its caller Quantize (C09.R3)"},
+	"(*Context).Reduce":               {"(*Decimal).Reduce": "stripping trailing zeros after rounding keeps the adjusted exponent and only removes digits"},
+	"(*Context).QuoInteger":           {"(*BigInt).Quo": "integer quotient: exponent is the constant 0 and NumDigits <= Precision is tested explicitly (else NaN)", "store Exponent": "constant 0"},
+	"(*Context).Quantize":             {"(*Context).quantize": "followed by the NumDigits/MaxExponent guards and a Round"},
+	"(*Context).quantize":             {"*": "quantize's contract is the requested exponent; range is enforced by its caller Quantize (C09.R3)"},
 	"(*Context).RoundToIntegralExact": {"(*Context).toIntegral": "integral value of a well-formed operand: exponent 0, digits <= operand's adjusted exponent + 1"},
 	"(*Context).RoundToIntegralValue": {"(*Context).toIntegral": "integral value of a well-formed operand: exponent 0"},
-	"(*Context).Cbrt":       {"store Negative": "sign only"},
-	"(*Context).Pow":        {"store Negative": "sign only"},
-	"(*Context).add":        {"store Negative": "sign only"},
-	"(*Context).setAsNaN":     {"*": "copies a NaN operand (selected by its Form tests): nothing to round"},
-	"(*Context).integerPower": {"*": "intermediate: integerPower's result is rounded by its callers (Exp, Pow) — C07.R1 on those"},
+	"(*Context).Cbrt":                 {"store Negative": "sign only"},
+	"(*Context).Pow":                  {"store Negative": "sign only"},
+	"(*Context).add":                  {"store Negative": "sign only"},
+	"(*Context).setAsNaN":             {"*": "copies a NaN operand (selected by its Form tests): nothing to round"},
+	"(*Context).integerPower":         {"*": "intermediate: integerPower's result is rounded by its callers (Exp, Pow) — C07.R1 on those"},
 }
 
 func ruleRangeEnforced(w *World, r *RuleResult) {
